@@ -852,3 +852,56 @@ Proof.
   intros s now n sent st. unfold status_q; simpl. fold st.
   repeat split; intros ->; reflexivity.
 Qed.
+
+(* ------------------------------------------------------------------ *)
+(* C05: recognising what is already there                                 *)
+Section Recognise.
+Variable H : list Z -> name.
+
+(* a file whose cache entry is not "validated" (in particular: already put away,
+   or failed) is never logged or delivered by a finalisation *)
+Theorem finalize_needs_validated : forall s now o f0,
+  nth_error (heap s) o = Some f0 ->
+  cache_state (lock (f_name f0) s) (f_name f0) <> ST_VALIDATED ->
+  rlog (finalize s now o) = rlog s /\ finals (finalize s now o) = finals s /\ waits (finalize s now o) = waits s.
+Proof.
+  intros s now o f0 N C. unfold finalize. rewrite N.
+  destruct (cache_state (lock (f_name f0) s) (f_name f0) =? ST_VALIDATED) eqn:E.
+  - apply Z.eqb_eq in E. contradiction.
+  - cbn [negb orb]. repeat split; reflexivity.
+Qed.
+
+(* a part that completes a file whose version (hash) the cache already knows - held,
+   put away or still being processed, anything but failed - is a retransmission: it
+   is acknowledged, nothing is queued for validation, no complete body is staged,
+   nothing is logged *)
+Theorem receive_duplicate_discarded : forall s p d sf o,
+  alookup (p_name p) (parts s) = Some sf ->
+  Z.of_nat (length d) = p_end p - p_beg p ->
+  let n := p_name p in
+  let c0 := match alookup n (cmps s) with
+            | Some c => if name_eqb (c_hash c) (p_hash p)
+                        then mkcomp (c_renamed c) (p_prev p) (c_size c) (c_hash c) (c_parts c)
+                        else mkcomp (p_renamed p) (p_prev p) (p_size p) (p_hash p) []
+            | None => mkcomp (p_renamed p) (p_prev p) (p_size p) (p_hash p) [] end in
+  complete (add_part (c_parts c0) (p_beg p) (p_end p)) (c_size c0) = true ->
+  cache_obj s n = Some o -> f_state (obj s o) <> ST_FAILED -> f_hash (obj s o) = p_hash p ->
+  snd (receive s p d false) = true /\
+  vq (fst (receive s p d false)) = vq s /\ fulls (fst (receive s p d false)) = fulls s /\
+  heap (fst (receive s p d false)) = heap s /\ rlog (fst (receive s p d false)) = rlog s /\
+  finals (fst (receive s p d false)) = finals s.
+Proof.
+  intros s p d sf o L Hlen n c0 Hc Hco Hst Hh. unfold receive. rewrite L.
+  assert (E : (Z.of_nat (length d) =? p_end p - p_beg p) = true) by (apply Z.eqb_eq; exact Hlen).
+  rewrite E. cbn [orb negb].
+  change (cmps (lock (p_name p) (set_parts (aset (p_name p) {| sf_data := write_at (sf_data sf) (Z.to_nat (p_beg p)) d; sf_old := false |} (parts s)) s))) with (cmps s).
+  fold n. fold c0. cbn [c_parts c_size c_renamed c_prev c_hash]. rewrite Hc.
+  match goal with |- context [cache_obj ?x n] => change (cache_obj x n) with (cache_obj s n) end.
+  rewrite Hco.
+  match goal with |- context [obj ?x o] => change (obj x o) with (obj s o) end.
+  assert (S1 : (f_state (obj s o) =? ST_FAILED) = false) by (apply Z.eqb_neq; exact Hst).
+  assert (S2 : name_eqb (f_hash (obj s o)) (p_hash p) = true) by (apply name_eqb_eq; exact Hh).
+  rewrite S1, S2. cbn [negb andb].
+  match goal with |- context [if ?c then _ else _] => destruct c end; cbn [fst snd]; repeat split; reflexivity.
+Qed.
+End Recognise.
